@@ -96,8 +96,19 @@ func main() {
 			}
 		}
 		scs = append(canonical(), canonicalManyLoad()...)
+		scs = append(scs, canonicalEarlyExit()...)
 		if os.Getenv("C14_ONLY_MANYLOAD") != "" { // development aid
 			scs, els = canonicalManyLoad(), nil
+		}
+		if os.Getenv("C14_ONLY_EARLYEXIT") != "" { // development aid
+			scs, els = canonicalEarlyExit(), nil
+		}
+		// layer: early exits in a chosen order relative to the others' arrival at the barrier
+		if os.Getenv("C14_ONLY_CANONICAL") == "" && os.Getenv("C14_ONLY_MANYLOAD") == "" {
+			xb := c.Rand("early-exit")
+			for i, n := 0, c.N(90, 3000); i < n; i++ {
+				scs = append(scs, genEarlyExit(xb.ForkN("ee", i), i))
+			}
 		}
 		if os.Getenv("C14_ONLY_CANONICAL") == "" {
 			mb := c.Rand("manyload")
@@ -105,7 +116,7 @@ func main() {
 				scs = append(scs, genManyLoad(mb.ForkN("ml", i), i))
 			}
 		}
-		if os.Getenv("C14_ONLY_CANONICAL") == "" && os.Getenv("C14_ONLY_MANYLOAD") == "" {
+		if os.Getenv("C14_ONLY_CANONICAL") == "" && os.Getenv("C14_ONLY_MANYLOAD") == "" && os.Getenv("C14_ONLY_EARLYEXIT") == "" {
 			n := c.N(150, 5000)
 			base := c.Rand("scenarios")
 			for i := 0; i < n; i++ {
@@ -143,7 +154,10 @@ func main() {
 		Rule: "case = (generated GCN3 program, memory/dispatcher environment) on one real timing compute unit, plus the same programs through the driver " +
 			"on the r9nano timing and the emulation platform; generated from VERIF_SEED plus a fixed canonical battery. " +
 			"non-trivial = single-CU run without violation in which some wavefront issued an s_barrier >= 100 cycles after another wavefront of its " +
-			"group issued the same generation, or an s_waitcnt was issued with more memory instructions outstanding than it allows (it had to stall)",
+			"group issued the same generation, or an s_waitcnt was issued with more memory instructions outstanding than it allows (it had to stall). " +
+			"early-exit layer: 0..W-1 wavefronts of a group of 2..16 leave before the 1st..4th barrier, per-wavefront delay tables / a long-latency load decide whether they end " +
+			"before, between or after the others' arrivals; the counters early_exits_* say from the trace which order occurred (an exit 'had to release the barrier' when at the cycle " +
+			"its s_endpgm completed every other wavefront of the group had ended or had been parked at the skipped barrier for >= 2 cycles)",
 		Assumptions: []string{
 			"issue = start and completion = first end of the compute unit's tracing task of kind \"inst\"; completion of a memory instruction = the cycle the compute unit retrieved the last response of its transactions from its memory port (request->instruction mapping from the req_out tasks)",
 			"the compute unit's memory ports deliver responses in request order (fake memories are FIFO, or reorder behind the real reorder buffer as in the shipped shader array)",
@@ -168,10 +182,21 @@ func main() {
 			"waitcnt_nonzero_outstanding_at_issue":  200,
 			"endpgm_issued_with_memory_outstanding": 50,
 			"wg_results_checked_at_completion":      100,
-			"early_exit_cases":                      8,
-			"early_exit_cases_completed":            3,
-			"output_words_compared":                 10000,
-			"e2e_runs_compared":                     8,
+			"early_exit_cases":                      60,
+			"early_exit_cases_completed":            60,
+			// early exits in every order relative to the others' arrival at the barrier (counted from the trace)
+			"work_groups_with_2_or_more_early_exits":                                                           80,
+			"work_groups_with_2_or_more_early_exits_after_the_staying_wavefronts_parked":                       60,
+			"early_exits_after_the_staying_wavefronts_parked_2nd_or_later_of_the_group":                        200,
+			"early_exits_that_had_to_release_the_barrier":                                                      90,
+			"early_exits_that_had_to_release_the_barrier_with_another_wavefront_already_ended":                 70,
+			"early_exits_that_had_to_release_the_barrier_with_2_or_more_wavefronts_already_ended":              45,
+			"early_exits_that_had_to_release_the_2nd_or_a_later_barrier":                                       35,
+			"early_exits_that_had_to_release_the_barrier_with_another_ended_and_more_than_16_parked_on_the_cu": 8,
+			"early_exits_before_any_other_wavefront_arrived_at_the_barrier":                                    50,
+			"early_exits_between_arrivals_at_the_barrier":                                                      20,
+			"output_words_compared": 10000,
+			"e2e_runs_compared":     8,
 			// wait counts with many loads in flight, per architecture
 			"waitcnt_issued_with_more_than_15_vector_loads_in_flight_gcn3":        20,
 			"waitcnt_issued_with_more_than_15_vector_loads_in_flight_cdna3":       30,
@@ -187,7 +212,8 @@ func main() {
 			"emu_link_result_words_checked_at_completion":                      20000,
 			"emu_link_barriers_executed":                                       500,
 		}
-		if os.Getenv("C14_NO_E2E") != "" || os.Getenv("C14_ONLY_CANONICAL") != "" || os.Getenv("C14_ONLY_EMULINK") != "" {
+		if os.Getenv("C14_NO_E2E") != "" || os.Getenv("C14_ONLY_CANONICAL") != "" || os.Getenv("C14_ONLY_EMULINK") != "" ||
+			os.Getenv("C14_ONLY_MANYLOAD") != "" || os.Getenv("C14_ONLY_EARLYEXIT") != "" {
 			opts.MinCounters = nil
 			opts.MinNontrivial = 2
 		}
